@@ -272,6 +272,9 @@ def r17b(ctx, run):
         if arr == "ConcreteArray":
             payload["uid"] = 1
         cases.append((arr, Variant("Ty::" + arr, payload), None, align_of(sub)))
+        # ... and concrete lengths: the rule has no special lengths (one item still takes a whole stride, no item takes nothing)
+        for n_ in (0, 1, 2, 3, 7):
+            cases.append(("%s:len=%d" % (arr, n_), Variant("Ty::" + arr, dict(payload, size=n_)), ("len", n_), align_of(sub)))
     for name, tyv, want_size, want_align in cases:
         try:
             size, align, sl, el, it = run_calc(ctx, tyv, 64)
@@ -280,6 +283,9 @@ def r17b(ctx, run):
             continue
         if want_size is None:   # array: stride * len, in either operand order
             want_size = SymInterp().binop("*", stride_of(sub), N, {"ln": fn.ln})
+            rule = "length * element stride"
+        elif isinstance(want_size, tuple) and want_size[0] == "len":
+            want_size = SymInterp().binop("*", stride_of(sub), want_size[1], {"ln": fn.ln}) if want_size[1] else 0
             rule = "length * element stride"
         else:
             rule = "the underlying type's size"
